@@ -68,6 +68,9 @@ def do_step(step, root):
     if step.get("via") == "kwargs":
         ckw = {"chunk_duration": step["chunk_duration"], "n_threads": step["n_threads"],
                "check_after_compress": step["check_after"]}
+        for kk in ("do_spatial_diff", "comp_level"):
+            if step.get(kk) is not None:
+                ckw[kk] = step[kk]
     if op == "compress":
         sr = spikeglx.Reader(binf)
         out = sr.compress_file(keep_original=step["keep_original"], **ckw)
@@ -181,12 +184,19 @@ def _next_step(r, model, fs, ns, nfaults):
         cs, cd = _chunking(r, ns, fs)
         st.update({"chunk_samples": cs, "chunk_duration": cd, "n_threads": r.choice([1, 2, 4]),
                    "check_after": r.random() < 0.7, "via": r.choice(["kwargs", "kwargs", "config"])})
+        if st["via"] == "kwargs" and r.random() < 0.3:
+            st["do_spatial_diff"] = True
+        if st["via"] == "kwargs" and r.random() < 0.3:
+            st["comp_level"] = r.choice([1, 9])
     if op == "recompress":
         # compress again over an existing complete pair, with the chunking that pair was made with
         # (so that the rewritten .ch is byte-identical and the unchanged code has no window of harm)
         st = {"op": "compress", "recompress": True, "chunk_samples": model["chunk_samples"],
               "chunk_duration": model["chunk_duration"], "n_threads": r.choice([1, 2, 4]),
               "check_after": r.random() < 0.7, "via": r.choice(["kwargs", "config"])}
+        if model.get("codec"):      # every parameter that ends up in the .ch must be the one the pair was made with
+            st.update(model["codec"])
+            st["via"] = "kwargs"
         op = "compress"
     if op == "compress":
         st["keep_original"] = r.random() < 0.5
@@ -508,8 +518,10 @@ def _exec_step(W, st, model, log, stats, bump, seed, progress=False):
     if op in ("compress", "inplace_cycle") and after["cbin"] == "complete" and not (failed and before["cbin"] == "complete"):
         model["chunk_samples"] = st.get("chunk_samples")
         model["chunk_duration"] = st.get("chunk_duration")
+        model["codec"] = {k: st[k] for k in ("do_spatial_diff", "comp_level") if st.get(k) is not None and st.get("via") == "kwargs"}
     if after["cbin"] != "complete":
         model["chunk_samples"] = model["chunk_duration"] = None
+        model["codec"] = None
     # scratch outputs are consumed by the oracle and removed so that later to_scratch steps start clean or dirty by choice
     return fired is not None
 
@@ -602,6 +614,19 @@ def _read_checks(W, model, rsel, log, stats, bump):
                         stats["distinct"].append(f"read|k{-(-ns // cs)}|c{cache}|{cls}")
                         if ">cache" in cls:
                             bump("probes", "read_spanning_more_than_cache")
+                # the other read entry points: read() with sync, read_samples, read_sync
+                a0 = rsel.randrange(0, max(1, ns - 1))
+                a1 = min(ns + 5, a0 + rsel.choice([1, 7, cs, cs + 1, 300]))
+                for desc, fn in (("read(sync)", lambda q: q.read(nsel=slice(a0, a1), csel=slice(None), sync=True)),
+                                 ("read_samples", lambda q: q.read_samples(a0, a1)),
+                                 ("read_sync", lambda q: (q.read_sync(slice(a0, a1)),))):
+                    e_ = fn(ref)
+                    try:
+                        g_ = fn(sr)
+                    except Exception as ex:
+                        raise Violation("C02.T", f"read-raises:{name}:{desc}", f"{desc}({a0},{a1}) via {name} raised {ex!r}; fine on the original")
+                    if len(e_) != len(g_) or any(x.shape != y.shape or not np.array_equal(x, y) for x, y in zip(e_, g_)):
+                        raise Violation("C02.T", f"read-differs:{name}:{desc}", f"{desc}({a0},{a1}) via {name} differs from the original. chunk={cs} ns={ns}")
                 log.append(["read", name, len(sels)])
             finally:
                 sr.close()
